@@ -201,6 +201,14 @@ def builders():
     return out
 
 
+class UserCoefficient(ufl.Coefficient):
+    """A downstream subclass of Coefficient (as dolfinx.fem.Function / firedrake.Function are): shares the Coefficient counter."""
+
+
+class UserConstant(ufl.Constant):
+    """A downstream subclass of Constant."""
+
+
 def variants():
     """[(name, build_a, build_b)] — pairs of forms differing by exactly one small compile-relevant change."""
     out = []
@@ -212,8 +220,8 @@ def variants():
         m = new_mesh(kw.get("cell", ufl.triangle), kw.get("gdeg", 1))
         cell = kw.get("cell", ufl.triangle)
         V = FunctionSpace(m, kw.get("element", L)(cell, kw.get("degree", 1)), *([kw["label"]] if "label" in kw else []))
-        u, v, f, g = TrialFunction(V), TestFunction(V), Coefficient(V), Coefficient(V)
-        c = Constant(m, kw.get("cshape", ()))
+        u, v, f, g = TrialFunction(V), TestFunction(V), Coefficient(V), (UserCoefficient(V) if kw.get("subclass") else Coefficient(V))
+        c = (UserConstant if kw.get("subclass") else Constant)(m, kw.get("cshape", ()))
         cc = c if not kw.get("cshape") else c[0]
         i, j = Index(), Index()
         lit = kw.get("literal", 2)
@@ -221,6 +229,11 @@ def variants():
             "default": lambda: lit * f * u * v + cc * g * v * u,
             "swap coefficients": lambda: lit * g * u * v + cc * f * v * u,
             "f*f": lambda: lit * f * u * v + cc * f * v * u,
+            "product f*g": lambda: f * g * u * v,
+            "product f*f": lambda: f * f * u * v,
+            "product g*g": lambda: g * g * u * v,
+            "f*g^2": lambda: f * g ** 2 * u * v + c * c * v,
+            "f^2*g": lambda: f ** 2 * g * u * v + c * c * v,
             "grad index pattern a": lambda: grad(u)[i] * grad(v)[i] * grad(f)[j] * grad(g)[j],
             "grad index pattern b": lambda: grad(u)[i] * grad(v)[j] * grad(f)[i] * grad(g)[j],
             "free-then-fixed A[i,0]": lambda: dot(as_vector(grad(grad(f))[i, 0], i), grad(v)) * u,
@@ -253,6 +266,13 @@ def variants():
     pair("literal complex", base, {"literal": 1 + 2j}, {"literal": 1 - 2j})
     pair("which coefficient multiplies which", base, {}, {"expr": "swap coefficients"})
     pair("same coefficient twice vs two coefficients", base, {}, {"expr": "f*f"})
+    pair("which coefficient multiplies which (one of them of a user subclass of Coefficient)", base, {"subclass": True}, {"subclass": True, "expr": "swap coefficients"})
+    pair("same coefficient twice vs two coefficients (one of a user subclass)", base, {"subclass": True}, {"subclass": True, "expr": "f*f"})
+    for sub in (False, True):
+        tagp = " (g of a user subclass of Coefficient)" if sub else ""
+        pair("product f*g vs f*f" + tagp, base, {"subclass": sub, "expr": "product f*g"}, {"subclass": sub, "expr": "product f*f"})
+        pair("product f*g vs g*g" + tagp, base, {"subclass": sub, "expr": "product f*g"}, {"subclass": sub, "expr": "product g*g"})
+        pair("f*g^2 vs f^2*g" + tagp, base, {"subclass": sub, "expr": "f*g^2"}, {"subclass": sub, "expr": "f^2*g"})
     pair("index contraction pattern", base, {"expr": "grad index pattern a"}, {"expr": "grad index pattern b"})
     pair("fixed index value", base, {"expr": "fixed index 0"}, {"expr": "fixed index 1"})
     pair("first free index vs fixed index 0 swapped (A[i,0] vs A[0,i])", base, {"expr": "free-then-fixed A[i,0]", "degree": 2}, {"expr": "fixed-then-free A[0,i]", "degree": 2})
